@@ -237,6 +237,7 @@ class Scn(object):
         self.failed = {}                     # key -> count
         self.kinds = {}                      # ep -> set of kinds
         self.preconditions = {}              # ep -> count of skipped cases (documented precondition not met)
+        self.slow = []                       # calls that took more than 20 s
         self.t0 = time.time()
         self.budget = ctx.n(140., 1500.)     # s; afterwards repetitions shrink to 1
         os.makedirs(SCRATCH, exist_ok=True)
@@ -278,9 +279,15 @@ class Scn(object):
         self.ctx.nontrivial.add((ep, kind))
         self.ctx.count(ep.split('.')[1] + ':' + kind if len(kind) < 40 else ep.split('.')[1])
         suffix = (':' + kind) if edge else ''
+        t_call = time.time()
         try:
-            with quiet():
-                res = thunk()
+            try:
+                with quiet():
+                    res = thunk()
+            finally:
+                dt = time.time() - t_call
+                if dt > 20.:
+                    self.slow.append((ep, kind, round(dt, 1), J(inputs) if dt > 120. else None))
         except (KeyboardInterrupt, SystemExit, MemoryError):
             raise
         except BaseException as e:      # noqa: BLE001 — the property is exactly "does not raise"
@@ -501,9 +508,11 @@ def write_profile_nc(S, prf, path):
     data, names, units = profile_table(prf)
     nc = S.attempt('ambient.create_nc_db', 'scratch-file', {'nc_file': os.path.basename(path)},
                    lambda: ambient.create_nc_db(path, 'C20 synthetic profile', 'harness/c20.py', 'No Sea Name', 28.5, 270.7,
-                                                1275177600.0))
-    S.attempt('ambient.fill_nc_db', 'whole-table', {'names': names, 'units': units, 'rows': int(data.shape[0])},
-                  lambda: _nc_numbers(ambient.fill_nc_db(nc, data, names, units, ['synthetic'] * len(names), 0), names))
+                                                1275177600.0), need=True)
+    try:
+        S.attempt('ambient.fill_nc_db', 'whole-table', {'names': names, 'units': units, 'rows': int(data.shape[0])},
+                  lambda: _nc_numbers(ambient.fill_nc_db(nc, data, names, units, ['synthetic'] * len(names), 0), names),
+                  need=True)
     finally:
         nc.close()
     return path
@@ -552,9 +561,6 @@ def _sw_tsp(S):
             T, Sa, P = sw_state(S.r, hot)
             S.attempt('seawater.' + f, 'hot' if hot else 'cold', {'T': T, 'S': Sa, 'P': P},
                       lambda f=f, T=T, Sa=Sa, P=P: getattr(seawater, f)(T, Sa, P))
-        z = np.array([sw_state(S.r) for _ in range(5)])
-        S.attempt('seawater.' + f, 'arrays', {'T': z[:, 0], 'S': z[:, 1], 'P': z[:, 2]},
-                  lambda f=f, z=z: getattr(seawater, f)(z[:, 0], z[:, 1], z[:, 2]))
 
 
 @entry('seawater.sigma')
@@ -648,6 +654,25 @@ def _dbm_p_cubic(S):
         S.attempt('dbm_p.cubic_roots', 'PR-cubic', {'p': p}, lambda p=p: dbm_p.cubic_roots(p))
 
 
+def _db_composition(r, nmin=1, nmax=6):
+    """random compounds of the distributed database; water (not a dispersed-phase fluid) and hydrogen (kept for the
+    separate `hydrogen-rich` input kind, so that what it triggers has a stable key) are left out"""
+    import mixgen
+    return mixgen.composition(r, nmin, nmax, exclude=('water', 'hydrogen'))
+
+
+def _h2_case(S):
+    """a hydrogen-dominated mixture at an ocean state: T / Tc_mix > 4.2"""
+    from tamoc import dbm
+    r = S.r
+    comp = ['hydrogen'] + r.sample(['methane', 'nitrogen', 'carbon_dioxide'], r.randint(0, 1))
+    fm = dbm.FluidMixture(comp)
+    yk = np.array([0.95, 0.05][:len(comp)])
+    m = fm.masses(yk / yk.sum())
+    T, P = r.uniform(275., 320.), lu(r, 1e5, 2e7)
+    return fm, m, T, P, {'composition': comp, 'm': m, 'T': T, 'P': P}
+
+
 def _mix_case(S, hydrocarbon=False, nmax=6):
     import mixgen
     r = S.r
@@ -656,7 +681,7 @@ def _mix_case(S, hydrocarbon=False, nmax=6):
         comp = r.sample(HC_GAS + HC_LIQ, n)
         fm, d = mixgen.mixture(r, comp=comp, peneloux=False)
     else:
-        fm, d = mixgen.mixture(r, nmin=1, nmax=nmax)
+        fm, d = mixgen.mixture(r, comp=_db_composition(r, 1, nmax))
     m = mixgen.masses(r, fm.nc)
     T = r.uniform(270., 420.)
     P = lu(r, 1e5, 5e7)
@@ -682,6 +707,11 @@ def _dbm_p_eos(S):
             S.attempt('dbm_p.' + fn, 'nc%d:%s' % (fm.nc, d['delta_mode']), d,
                       lambda fn=fn, a=a, params=params: getattr(dbm_p, fn)(
                           *[np.array(a[p], copy=True) if isinstance(a[p], np.ndarray) else a[p] for p in params]))
+    fm, m, T, P, d = _h2_case(S)
+    e = mixgen.eos_args(fm)
+    S.attempt('dbm_p.viscosity', 'hydrogen-rich', d,
+              lambda: dbm_p.viscosity(T, P, m.copy(), e['Mol_wt'], e['Pc'], e['Tc'], e['Vc'], e['omega'], e['delta'].copy(), e['Aij'],
+                                      e['Bij'], e['delta_groups'], e['calc_delta'], e['C_pen'], e['C_pen_T']), edge=True)
 
 
 @entry('dbm_p.kh_insitu', 'dbm_p.sw_solubility', 'dbm_p.diffusivity', 'dbm_p.kvsi_hydrate')
@@ -701,7 +731,7 @@ def _dbm_p_sol(S):
         mk = np.array([r.choice([0., r.random()]) for _ in range(8)])
         if mk.sum() == 0.:
             mk[0] = 1.
-        Th, Ph = r.uniform(265., 300.), lu(r, 5e5, 3e7)
+        Th, Ph = r.uniform(273.15, 300.), lu(r, 5e5, 1.2e7)      # above the ice point, within the fitted pressures of Sloan & Koh Table 4.4a
         S.attempt('dbm_p.kvsi_hydrate', 'eight-formers', {'T_in': Th, 'P_in': Ph, 'mass': mk},
                   lambda Th=Th, Ph=Ph, mk=mk: dbm_p.kvsi_hydrate(Th, Ph, mk))
 
@@ -732,7 +762,7 @@ def _fm_basic(S):
     from tamoc import dbm
     r = S.r
     for _ in range(S.reps()):
-        comp = mixgen.composition(r, 1, 6)
+        comp = _db_composition(r, 1, 6)
         mode = r.choice(['zero', 'groups', 'const'])
         kw = {}
         if mode == 'groups':
@@ -746,7 +776,7 @@ def _fm_basic(S):
             kw['delta'] = dl
         d0 = {'composition': comp, 'delta_mode': mode}
         fm = S.attempt('dbm.FluidMixture', 'database:' + mode, d0,
-                       lambda comp=comp, kw=kw: dbm.FluidMixture(list(comp), **kw))
+                       lambda comp=comp, kw=kw: dbm.FluidMixture(list(comp), **kw), need=True)
         m = mixgen.masses(r, fm.nc)
         n = m / fm.M
         T, P = r.uniform(270., 420.), lu(r, 1e5, 5e7)
@@ -762,8 +792,10 @@ def _fm_basic(S):
                        ('diffusivity', lambda: fm.diffusivity(Ta, Sa, P)),
                        ('biodegradation_rate', lambda: (fm.biodegradation_rate(r.choice([0., 1e3, 1e7]), True),
                                                         fm.biodegradation_rate(0., False)))):
-            try:
-                S.attempt('dbm.FluidMixture.' + nm, k, dict(d, Sa=Sa, Ta=Ta), th)
+            S.attempt('dbm.FluidMixture.' + nm, k, dict(d, Sa=Sa, Ta=Ta), th)
+    # hydrogen-dominated mixture (hydrogen is a compound of the distributed database): own key, see _h2_case
+    fm, m, T, P, d = _h2_case(S)
+    S.attempt('dbm.FluidMixture.viscosity', 'hydrogen-rich', d, lambda: fm.viscosity(m.copy(), T, P), edge=True)
 
 
 @entry('dbm.FluidMixture.interface_tension')
@@ -808,8 +840,9 @@ def _fm_equil(S):
         d = {'composition': sp['composition'], 'm': m, 'T': T, 'P': P}
         res = S.attempt('dbm.FluidMixture.equilibrium', sp['kind'], d,
                         lambda fm=fm, m=m, T=T, P=P: _equil_result(fm.equilibrium(m.copy(), T, P)))
-        res = _strip(res)
-        K = res['nan_ok'] if isinstance(res, dict) else res[2]
+        if res is FAILED:
+            continue
+        K = res.nan_ok if isinstance(res, NanOK) else res[2]
         if not np.any(np.isnan(K)):
             # warm start with the converged K (documented optional argument)
             S.attempt('dbm.FluidMixture.equilibrium', sp['kind'] + ':warm-K', dict(d, K=K),
@@ -854,16 +887,15 @@ def _fp_all(S):
         kind = kinds[i % 3]
         sp = fluid_spec(r, kind)
         fp = S.attempt('dbm.FluidParticle', kind, sp,
-                       lambda sp=sp: dbm.FluidParticle(list(sp['composition']), fp_type=sp['fp_type']))
+                       lambda sp=sp: dbm.FluidParticle(list(sp['composition']), fp_type=sp['fp_type']), need=True)
         yk = np.array(sp['yk'])
         P, Sa, Ta = ocean_state(r)
         T = Ta + r.choice([0., r.uniform(0., 25.)])
         de = lu(r, 1e-4, 2e-2)
         st = r.choice([1, -1])
         d = dict(sp, de=de, T=T, P=P, Sa=Sa, Ta=Ta, status=st)
-        try:
-            m = S.attempt('dbm.FluidParticle.masses_by_diameter', kind, d, lambda: fp.masses_by_diameter(de, T, P, yk.copy()))
-        except CallFailed:
+        m = S.attempt('dbm.FluidParticle.masses_by_diameter', kind, d, lambda: fp.masses_by_diameter(de, T, P, yk.copy()))
+        if m is FAILED:
             continue
         n = m / fp.M
         d = dict(d, m=m)
@@ -910,24 +942,34 @@ def _ip_all(S):
         ip = S.attempt('dbm.InsolubleParticle', kind, sp,
                        lambda sp=sp: dbm.InsolubleParticle(sp['isfluid'], sp['iscompressible'], rho_p=sp['rho_p'], gamma=sp['gamma'],
                                                            beta=sp['beta'], co=sp['co'], k_bio=sp['k_bio'], t_bio=sp['t_bio'],
-                                                           fp_type=sp['fp_type']))
+                                                           fp_type=sp['fp_type']), need=True)
         P, Sa, Ta = ocean_state(r)
         T = Ta + r.choice([0., r.uniform(0., 25.)])
         de = lu(r, 1e-4, 1e-2)
         st = r.choice([1, -1])
         d = dict(sp, de=de, T=T, P=P, Sa=Sa, Ta=Ta, status=st)
-        try:
-            m = S.attempt('dbm.InsolubleParticle.mass_by_diameter', kind, d, lambda: ip.mass_by_diameter(de, T, P, Sa, Ta))
-        except CallFailed:
+        m = S.attempt('dbm.InsolubleParticle.mass_by_diameter', kind, d, lambda: ip.mass_by_diameter(de, T, P, Sa, Ta))
+        if m is FAILED:
             continue
         m = float(m)
         d = dict(d, m=m)
-        for nm, th in (('density', lambda: ip.density(T, P, Sa, Ta)), ('viscosity', lambda: ip.viscosity(T)),
-                       ('interface_tension', lambda: ip.interface_tension(T)),
+        rigid = not sp['isfluid']
+
+        def doc_inf(v):
+            # "If solid, the viscosity is returned as infinite" / "If solid, the surface tension is returned as infinite"
+            # (docstrings of InsolubleParticle.viscosity / .interface_tension): +inf is the documented value, only then
+            return 'inf (documented for a solid particle)' if (rigid and v == np.inf) else v
+
+        def shape():
+            res = list(ip.particle_shape(m, T, P, Sa, Ta))
+            res[4], res[6] = doc_inf(res[4]), doc_inf(res[6])        # mu_p, sigma of a solid particle
+            return res
+        for nm, th in (('density', lambda: ip.density(T, P, Sa, Ta)), ('viscosity', lambda: doc_inf(ip.viscosity(T))),
+                       ('interface_tension', lambda: doc_inf(ip.interface_tension(T))),
                        ('biodegradation_rate', lambda: (ip.biodegradation_rate(0., True), ip.biodegradation_rate(1e5, True),
                                                         ip.biodegradation_rate(0., False))),
                        ('diameter', lambda: ip.diameter(m, T, P, Sa, Ta)),
-                       ('particle_shape', lambda: ip.particle_shape(m, T, P, Sa, Ta)),
+                       ('particle_shape', shape),
                        ('slip_velocity', lambda: ip.slip_velocity(m, T, P, Sa, Ta, st)),
                        ('surface_area', lambda: ip.surface_area(m, T, P, Sa, Ta)),
                        ('heat_transfer', lambda: ip.heat_transfer(m, T, P, Sa, Ta, st)),
@@ -970,6 +1012,7 @@ def _dbm_helpers(S):
         di = np.log(zi) + np.log(f_zi / (zi * P))
         S.attempt('dbm.stability_analysis', sp['kind'], dict(d2, zi=zi, di=di),
                       lambda: dbm.stability_analysis(m.copy(), T, P, *args, K0.copy(), zi.copy(), di.copy()))
+
 
 
 # =====================================================================================================
@@ -1035,6 +1078,8 @@ def run(ctx, lean_ok):
         ctx.notes.append('cases skipped because a documented precondition was not met: %r' % S.preconditions)
     if S.failed:
         ctx.notes.append('violation counts per key: %r' % S.failed)
+    if S.slow:
+        ctx.notes.append('calls slower than 20 s (entry point, kind, seconds, inputs if > 120 s): %r' % S.slow)
     ctx.oblige('every documented entry point is called, excluded with a reason, or listed as uncovered (%d = %d + %d + %d + %d blocked/unreached)'
                % (len(eps), len(called), cov['excluded_total'], len(uncovered), len(blocked) + len(not_called)),
                len(eps) == len(called) + cov['excluded_total'] + len(uncovered) + len(blocked) + len(not_called)
